@@ -7,6 +7,7 @@ def run(ctx):
     ctx.design("SamplerLaw", "SamplerLaw_quick.cfg", constants="all weight vectors len <= 2, sum <= 2, every draw order with repetitions", coverage=False)
     ctx.design("Alias", f"Alias_{t}.cfg", constants="Vose construction (two LIFO stacks, both leftover loops), all weight vectors", coverage=False)
     ctx.design("Bst", f"Bst_{t}.cfg", constants="implicit-heap cumulative tree for every length, all weight vectors", coverage=False)
+    ctx.design("Huffman", f"Huffman_{t}.cfg", constants="heap as written (vals no longer mirrors nodes after the first pop), all weight vectors", coverage=False)
     # the inversion sampler and the enumeration it drives, as written: every history of draws x admissibility patterns
     # with gaps x storage caps; the pinned restart rule (before c8e8b57) must violate the law
     ctx.design("MC_Inversion", f"Inversion_{t}.cfg", constants="admissibility patterns len 2..5, 3 weight tables, caps 1..4, all draw histories", coverage=False)
@@ -18,6 +19,12 @@ def run(ctx):
     ti = ctx.trace_path("inversion")
     ctx.drive("inversion_run", [ti, ctx.tier, ctx.seed])
     ctx.validate("Trace_Inversion", "Trace_Inversion.cfg", ti)
+    # specification -> code: the constructions of Alias / Bst / Huffman are run by TLC on the driver's weight vectors and
+    # the final structure is compared with the real object's (DRIFT notice if they differ)
+    for kind, mod in (("alias", "Struct_Alias"), ("bst", "Struct_Bst"), ("huffman", "Struct_Huffman")):
+        ts = ctx.trace_path("struct_" + kind)
+        ctx.drive("struct_run", [ts, ctx.tier, ctx.seed, kind])
+        ctx.validate(mod, mod + ".cfg", ts)
     tf = ctx.trace_path("samplers")
     ctx.drive("sampler_run", [tf, ctx.tier, ctx.seed])
     ctx.validate("Trace_Sampler", "Trace_Sampler.cfg", tf)
